@@ -64,12 +64,17 @@ pub fn replay(case: &J, lifts: &[Lift]) -> J {
 pub fn record(seed: u64, n: usize) -> Vec<J> {
     let mut r = Rng::new(seed);
     let mut out = vec![];
-    for i in 0..n {
+    // the first events are long even-length lists of widely spread ranks for median / min / max: selection shortcuts that
+    // only order part of the list show on lists longer than the small-slice threshold of the standard library's sorts
+    let directed: Vec<usize> = [18usize, 20, 22, 24, 32, 40, 50, 64].iter().flat_map(|l| std::iter::repeat(*l).take(8)).collect();
+    for i in 0..n + directed.len() {
         let s = Session::new();
         let lift = *r.pick(Lift::all());
+        let forced = if i < directed.len() { Some(directed[i]) } else { None };
+        let i = if forced.is_some() { 1 } else { i - directed.len() };
         let big = r.chance(1, 4);
-        let len = 1 + r.below(if big { 50 } else { 9 }) as usize;
-        let ranks: Vec<i64> = (0..len).map(|_| r.range(-6, 6)).collect();
+        let len = forced.unwrap_or(1 + r.below(if big { 50 } else { 9 }) as usize);
+        let ranks: Vec<i64> = (0..len).map(|_| if forced.is_some() { r.range(-40, 40) } else { r.range(-6, 6) }).collect();
         let xs: Vec<J> = ranks.iter().map(|k| vgen::fin(*k)).collect();
         let items: Vec<String> = xs.iter().map(|x| mv::src(x, lift)).collect();
         let list = format!("[{}]", items.join(", "));
@@ -91,7 +96,7 @@ pub fn record(seed: u64, n: usize) -> Vec<J> {
                 out.push(json!({"ev":"pct","xs":xs,"ps":ps,"rs":rs,"lift":lift.name(),"src":format!("percentile({}, ..)", list)}));
             }
             1 => {
-                let f = *r.pick(&["min", "max", "median"]);
+                let f = if forced.is_some() { "median" } else { *r.pick(&["min", "max", "median"]) };
                 let src = format!("{}({})", f, list);
                 let o = s.eval(&src);
                 let res = match &o {
